@@ -15,7 +15,7 @@ import multiprocessing as mp
 import numpy as np
 
 from .common import *   # noqa: F401,F403
-from .common import Case, Ob, require, val, elems, eq, conj, disj, neg, HarnessError, patched
+from .common import Case, Ob, require, val, elems, eq, le, conj, disj, neg, HarnessError, patched
 from symx.core import Sym
 
 import agilerl.vector.pz_async_vec_env as av
@@ -52,50 +52,94 @@ class Proc:
 class FaultPipe:
     """parent end of a pipe to worker i: every reply's success flag and every poll() are symbolic"""
 
-    def __init__(self, v, i, queue, log):
-        self.v, self.i, self.queue, self.log = v, i, queue, log
+    def __init__(self, v, i, queue, log, clock=None):
+        self.v, self.i, self.queue, self.log, self.clock = v, i, queue, log, clock
         self.closed = False
         self.sent, self.pending = [], 0
         self.bad_use = []
+        self.dead, self.outcome = False, []
+        self.ready = {}       # message index -> last known readiness of its reply
+        self.blocked = []     # commands whose reply was read before it was known to be there (a blocking recv)
 
     def send(self, msg):
         if self.closed:
             self.bad_use.append("send-on-closed")
             raise OSError("handle is closed")
+        if self.dead:
+            # a worker that raised has put its error on the queue, answered (None, False) and left its loop: its end of the pipe
+            # is gone (one legal schedule: it is gone before the parent's next command)
+            raise BrokenPipeError(f"worker {self.i} has exited")
         self.sent.append(msg)
         self.pending += 1
+        if msg[0] != "close":
+            ok = bool(self.v.bool(f"success{self.i}"))
+            self.outcome.append(ok)
+            if not ok:
+                self.dead = True
+                exc = WorkerBoom if self.i % 2 == 0 else WorkerBoom2
+                self.queue.put((self.i, exc, exc(f"worker {self.i} failed"), "trace"))
+        else:
+            self.outcome.append(True)
 
     def poll(self, timeout=None):
         if self.closed:
             self.bad_use.append("poll-on-closed")
             raise OSError("handle is closed")
-        ok = self.v.bool(f"poll{self.i}")
-        r = bool(ok)
+        k = len(self.sent) - self.pending
+        if self.dead or self.pending <= 0:
+            r = True if self.dead else False       # a worker that raised has already answered: its reply (or the end of the stream) is there to be read
+        else:
+            r = bool(self.v.bool(f"poll{self.i}"))
+            self.ready[k] = r
         self.log.append(("poll", self.i, r))
+        if self.clock is not None and timeout is not None:
+            # the poll waits for some time w within its allowance (all of it when nothing arrives); time passes only while waiting
+            w = self.v.real(f"wait{self.i}")
+            allow = timeout if isinstance(timeout, Sym) else float(timeout)
+            self.v.assume(conj(w >= 0, disj(w <= allow, conj(allow < 0, eq(w, 0)))), "a poll waits between 0 and its timeout")
+            if not r:
+                self.v.assume(disj(eq(w, allow), conj(allow < 0, eq(w, 0))), "a poll that reports nothing has waited its whole timeout")
+            self.clock.T = self.clock.T + w
         return r
 
     def recv(self):
         if self.closed:
             self.bad_use.append("recv-on-closed")
             raise OSError("handle is closed")
+        if self.pending <= 0 and self.dead:
+            raise EOFError(f"worker {self.i} has exited")
         if self.pending <= 0:
             self.bad_use.append("recv-without-pending-reply (would block forever)")
             raise HarnessError("the parent waits on a pipe with no reply pending: this would block forever")
         self.pending -= 1
-        cmd = self.sent[len(self.sent) - self.pending - 1][0]
+        k = len(self.sent) - self.pending - 1
+        cmd = self.sent[k][0]
         if cmd == "close":
-            return (None, True)
-        ok = bool(self.v.bool(f"success{self.i}"))
+            return (None, True)        # the acknowledgement of a close command comes at once
+        if not self.dead and not self.ready.get(k, False):
+            # nobody has seen this reply arrive yet: it may or may not be there; if it is not, this recv() blocks until it is
+            if not bool(self.v.bool(f"arrived{self.i}")):
+                self.blocked.append(cmd)
+        ok = self.outcome[k]
         self.log.append(("recv", self.i, ok))
         if not ok:
-            exc = WorkerBoom if self.i % 2 == 0 else WorkerBoom2
-            self.queue.put((self.i, exc, exc(f"worker {self.i} failed"), "trace"))
             return (None, False)
         payload = {"reset": {"ag_0": {}}, "step": ({"ag_0": 0.0}, {"ag_0": False}, {"ag_0": False}, {"ag_0": {}}), "_call": f"result{self.i}", "_setattr": None}[cmd]
         return (payload, True)
 
     def close(self):
         self.closed = True
+
+
+class Clock:
+    """time.perf_counter stand-in: an arbitrary start instant; time advances only while a poll waits"""
+
+    def __init__(self, v):
+        self.T = v.real("t0")
+        v.assume(self.T >= 0)
+
+    def perf_counter(self):
+        return self.T
 
 
 class ListQueue(list):
@@ -124,6 +168,7 @@ CALLS = {
     "call_wait": lambda e, t: e.call_wait(timeout=t),
     "set_attr": lambda e, t: e.set_attr("x", 1),
     "close": lambda e, t: e.close(),
+    "close_timeout": lambda e, t: e.close(timeout=t),
     "close_terminate": lambda e, t: e.close(terminate=True),
 }
 WAIT_OF = {"reset": AsyncState.WAITING_RESET, "step": AsyncState.WAITING_STEP, "call": AsyncState.WAITING_CALL}
@@ -139,16 +184,21 @@ class Protocol(Case):
 
     def __init__(self, calls, E=2, timeout=None):
         self.calls, self.E, self.timeout = tuple(calls), E, timeout
-        self.name = "protocol-" + ">".join(calls) + f"-E{E}" + ("-timeout" if timeout is not None else "")
+        self.name = "protocol-" + ">".join(calls) + f"-E{E}" + ("" if timeout is None else "-timeout" if timeout != "sym" else "-symbolic-timeout")
         self.site = "AsyncPettingZooVecEnv/protocol"
         self.bounds = {"api_calls": list(calls), "num_envs": E, "timeout_given": timeout is not None,
-                       "symbolic": "success flag of every worker reply, result of every poll()"}
+                       "symbolic": "success flag of every worker reply, result of every poll()" + (", the timeout (any real >= 0), the start instant and how long every poll waits" if timeout == "sym" else "")}
 
     def run(self, v):
         E = self.E
         log, queue = [], ListQueue()
         env = object.__new__(AsyncPettingZooVecEnv)
-        pipes = [FaultPipe(v, i, queue, log) for i in range(E)]
+        clock, timeout = None, self.timeout
+        if timeout == "sym":
+            clock = Clock(v)
+            timeout = v.real("timeout")
+            v.assume(timeout >= 0, "timeout >= 0")
+        pipes = [FaultPipe(v, i, queue, log, clock) for i in range(E)]
         procs = [Proc(v, i) for i in range(E)]
         env.num_envs, env.agents, env.possible_agents, env.num_agents = E, ["ag_0"], ["ag_0"], 1
         env.parent_pipes, env.processes, env.error_queue = list(pipes), procs, queue
@@ -156,14 +206,18 @@ class Protocol(Case):
         # reference state machine
         state, closed, broken = AsyncState.DEFAULT, False, False
         res = []
-        with patched((av.logger, "error", lambda *a, **k: None), (av.logger, "warn", lambda *a, **k: None)):
+        patches = [(av.logger, "error", lambda *a, **k: None), (av.logger, "warn", lambda *a, **k: None)]
+        if clock is not None:
+            patches.append((av, "time", clock))
+        with patched(*patches):
             for n, call in enumerate(self.calls):
                 tag = f"call{n}:{call}"
                 sent_before = [len(p.sent) for p in pipes]
                 log_before = len(log)
                 exc = None
+                t_before = clock.T if clock is not None else None
                 try:
-                    ret = CALLS[call](env, self.timeout)
+                    ret = CALLS[call](env, timeout)
                 except HarnessError:
                     raise
                 except Exception as ex:   # noqa: BLE001
@@ -173,10 +227,17 @@ class Protocol(Case):
                 n_polls = sum(1 for k, i, ok in new_log if k == "poll")
                 failed = [i for k, i, ok in new_log if k == "recv" and not ok]
                 sent_now = [len(p.sent) - b for p, b in zip(pipes, sent_before)]
-                if broken and call not in ("close", "close_terminate"):
+                if broken and call not in ("close", "close_terminate", "close_timeout"):
                     # after a worker fault only close() is specified; stop judging this sequence
                     break
-                if call in ("close", "close_terminate"):
+                if clock is not None and call.endswith("_wait"):
+                    # one deadline for the whole call: however the waiting is spread over the workers, it ends within the timeout
+                    res.append(Ob(f"{tag}/waiting-never-exceeds-the-timeout", le(clock.T - t_before, timeout), site="AsyncPettingZooVecEnv._poll_pipe_envs/shared-deadline"))
+                if call in ("close", "close_terminate", "close_timeout"):
+                    if call != "close" and not closed:
+                        # with a timeout (or terminate=True) close() must not sit in a recv() for a reply that has not arrived
+                        res.append(Ob(f"{tag}/close-with-a-timeout-never-blocks-on-an-unanswered-call", not any(p.blocked for p in pipes),
+                                      site="AsyncPettingZooVecEnv.close/blocks-despite-timeout"))
                     if closed:
                         res.append(Ob(f"{tag}/second-close-is-a-no-op", exc is None and not any(sent_now)))
                     else:
@@ -308,7 +369,11 @@ def cases(tier):
     cs = [Protocol(s) for s in seqs]
     cs += [Protocol(["step_async", "step_wait", "close"], timeout=0.0), Protocol(["reset_async", "reset_wait", "close"], timeout=0.0),
            Protocol(["call_async", "call_wait", "close", "close"], timeout=0.0)]
+    cs += [Protocol(["step_async", "step_wait"], timeout="sym"), Protocol(["reset_async", "reset_wait", "call_async", "call_wait"], timeout="sym"),
+           Protocol(["call_async", "close"]), Protocol(["reset_async", "close"]),
+           Protocol(["step_async", "close_timeout"], timeout=0.0), Protocol(["call_async", "close_timeout", "close"], timeout="sym"), Protocol(["reset_async", "reset_wait", "close_timeout"], timeout=0.0)]
     cs += [WorkerFault("reset"), WorkerFault("step"), WorkerFault("_call")]
     if tier == "thorough":
-        cs += [Protocol(s, E=3) for s in seqs[:12]] + [Protocol(["step_async", "step_wait", "close"], E=3, timeout=0.0)]
+        cs += [Protocol(s, E=3) for s in seqs[:12]] + [Protocol(["step_async", "step_wait", "close"], E=3, timeout=0.0),
+                                                       Protocol(["step_async", "step_wait"], E=3, timeout="sym"), Protocol(["step_async", "close"], E=3)]
     return cs
